@@ -181,7 +181,7 @@ def r3_both_ends_checked(ctx: Ctx) -> None:
     for k in rel:
         ctx.check(k[1] == "direct" and k[2] is None, f"table:{k[0]}", "branch mnemonics take a plain operand")
     ctx.count("branch_mnemonics", len(rel))
-    ctx.floor("branch_mnemonics", 7)
+    ctx.floor("branch_mnemonics", 4)
 
 
 
